@@ -176,6 +176,16 @@ def run(ctx):
                  ('fed_prox', {'mu': 0.5})):
     for _ in range(3):     # (the backend rotates with the position in this list: each algorithm meets jit, debug and pmap)
       variants.append((fyc, nm, dict(fy, mime_slr=R(1), mu=R(kw.get('mu', 0.0))), kw, 'rounds'))
+  # a fixed instance with drop_remainder=True and a client that has examples but fewer than one batch: it takes no step,
+  # its zero delta still enters the mean with the weight of its examples
+  fw = {'data': [[[1, 0]], [[2, 1], [3, -1], [0, 2]], [[4, 4], [5, 2]]], 'init': [R(0), R(1)], 'copt': island.opt_spec('sgd', 0.5), 'sopt': island.opt_spec('sgd', 1),
+        'mu': R(0), 'rounds': 2, 'cohorts': [[1, 2, 3], [2, 1]]}
+  fwh = {'bs': 2, 'epochs': 1, 'steps': None, 'drop': True, 'seed': 11, 'skip': False}
+  fw['stream'] = island.real_streams(fedjax, island.datasets(fedjax, fw['data']), island.hparams(fedjax, fwh))
+  fwc = {'inst': fw, 'h': fwh, 'exact': False, 'pool_a': False}
+  for nm, kw in (('fed_avg', {}), ('fed_prox', {'mu': 0.0}), ('hyp_cluster', {'clusters': 1}), ('apfl', {'coef': 0.5}), ('mime_lite', {'server_lr': 1.0}),
+                 ('mime_lite', {'server_lr': 1.0}), ('mime_lite', {'server_lr': 1.0})):
+    variants.append((fwc, nm, dict(fw, mime_slr=R(1)), kw, 'rounds'))
   # a fixed instance in which the DATA of a client changes between rounds (same id, same number of examples): in the
   # specification these are two clients, in the run they go by one id; every round uses the data it is handed
   fz = {'data': [[[1, 0], [2, 1]], [[-3, 2], [0, -1]], [[4, 4]]], 'init': [R(0), R(1)], 'copt': island.opt_spec('sgd', 0.5), 'sopt': island.opt_spec('sgd', 1),
